@@ -26,6 +26,185 @@ def absView (ns : List SNode) (es : List SEdge) : AGraph :=
 /-- observable content of graph `g` in the shared store -/
 def abs (s : Store) (g : String) : AGraph := absView (nodesOf s g) (edgesOf s g)
 
+
+/-! ## the reference model: the documented interface on one `AGraph`
+
+`AGraph.step op A` is what the interface documents for an operation addressed to a graph whose
+content is `A`: nodes are found by `NodeID` alone, links by the unordered pair of `NodeID`s.  It has
+no internal ids, no `GraphID`, no second graph: imports, clones and `merge_nodes` are not part of it
+(C04 and the merge theorems cover those), `find_matching_nodes` takes the other graph's content. -/
+namespace AGraph
+
+abbrev AR := Except Err Out × AGraph
+
+def empty : AGraph := ⟨[], []⟩
+
+def nidIs (nid : String) (a : Props) : Bool := AMap.get nodeId a == some (.str nid)
+def attrIs (k v : String) (a : Props) : Bool := AMap.get k a == some (.str v)
+def endIs (nid : String) (x : Option Val) : Bool := x == some (.str nid)
+def edgeIs (a b : String) (e : Option Val × Option Val × Props) : Bool :=
+  (endIs a e.1 && endIs b e.2.1) || (endIs b e.1 && endIs a e.2.1)
+
+/-- exactly one node carries the id -/
+def find (A : AGraph) (nid : String) : Except Err Unit :=
+  match A.nodes.filter (nidIs nid) with
+  | [] => .error .query
+  | [_] => .ok ()
+  | _ => .error .query
+
+def withN (A : AGraph) (nid : String) (k : AR) : AR :=
+  match find A nid with
+  | .error e => (.error e, A)
+  | .ok _ => k
+
+def updNode (nid : String) (f : Props → Props) (A : AGraph) : AGraph :=
+  { A with nodes := A.nodes.map (fun x => if nidIs nid x then f x else x) }
+
+def updEdge (a b : String) (f : Props → Props) (A : AGraph) : AGraph :=
+  { A with edges := A.edges.map (fun e => if edgeIs a b e then (e.1, e.2.1, f e.2.2) else e) }
+
+def addEdge (a b : String) (attrs : Props) (A : AGraph) : AGraph :=
+  if A.edges.any (edgeIs a b) then updEdge a b (fun p => AMap.update p attrs) A
+  else { A with edges := A.edges ++ [(some (.str a), some (.str b), attrs)] }
+
+def addNode (nid label : String) (props : Option Props) (A : AGraph) : AR :=
+  if A.nodes.any (nidIs nid) then (.error .query, A)
+  else (.ok .unit, { A with nodes := A.nodes ++ [AMap.update [(propClass, .str label), (nodeId, .str nid)] (props.getD [])] })
+
+def deleteNode (nid : String) (A : AGraph) : AR :=
+  withN A nid (.ok .unit, ⟨A.nodes.filter (fun x => !nidIs nid x), A.edges.filter (fun e => !endIs nid e.1 && !endIs nid e.2.1)⟩)
+
+def addLink (a rel b : String) (props : Option Props) (A : AGraph) : AR :=
+  withN A a (withN A b (
+    match props with
+    | none => (.ok .unit, addEdge a b [(propClass, .str rel)] A)
+    | some p => if AMap.has propClass p then (.error .type_, A) else (.ok .unit, addEdge a b ((propClass, .str rel) :: p) A)))
+
+def updateNodeProperty (nid k : String) (v : Val) (A : AGraph) : AR :=
+  if k = nxLabel then (.error .query, A) else withN A nid (.ok .unit, updNode nid (AMap.set k v) A)
+
+def unsetNodeProperty (nid k : String) (A : AGraph) : AR :=
+  if k = nxLabel then (.error .query, A)
+  else if k ∈ noUnset then (.error .query, A)
+  else withN A nid (
+    match A.nodes.find? (nidIs nid) with
+    | none => (.error .key, A)
+    | some a => if AMap.has k a then (.ok .unit, updNode nid (AMap.erase k) A) else (.error .query, A))
+
+def updateNodesProperty (k : String) (v : Val) (A : AGraph) : AR :=
+  if A.nodes.length = 0 then (.error .query, A)
+  else if k = nxLabel then (.error .query, A)
+  else (.ok .unit, { A with nodes := A.nodes.map (AMap.set k v) })
+
+def updateNodeProperties (nid : String) (props : Props) (A : AGraph) : AR :=
+  if AMap.has nxLabel props then (.error .query, A)
+  else withN A nid (.ok .unit, updNode nid (fun a => AMap.update a props) A)
+
+def withL (A : AGraph) (a b kind : String) (k : AR) : AR :=
+  withN A a (withN A b (
+    match A.edges.find? (edgeIs a b) with
+    | none => (.error .query, A)
+    | some e => if AMap.get nxLabel e.2.2 != some (.str kind) then (.error .query, A) else k))
+
+def updateLinkProperty (a b kind k : String) (v : Val) (A : AGraph) : AR :=
+  if k = nxLabel then (.error .query, A) else withL A a b kind (.ok .unit, updEdge a b (AMap.set k v) A)
+
+def unsetLinkProperty (a b kind k : String) (A : AGraph) : AR :=
+  if k = nxLabel then (.error .query, A) else withL A a b kind (.ok .unit, updEdge a b (AMap.erase k) A)
+
+def updateLinkProperties (a b kind : String) (props : Props) (A : AGraph) : AR :=
+  if AMap.has nxLabel props then (.error .query, A)
+  else withL A a b kind (.ok .unit, updEdge a b (fun p => AMap.update p props) A)
+
+def getNodeProperties (nid : String) (A : AGraph) : AR :=
+  withN A nid (
+    match A.nodes.find? (nidIs nid) with
+    | none => (.error .query, A)
+    | some a =>
+      match AMap.get nxLabel a with
+      | none => (.error .key, A)
+      | some l => (.ok (.nodeProps l (AMap.erase nxLabel a)), A))
+
+def getLinkProperties (a b : String) (A : AGraph) : AR :=
+  withN A a (withN A b (
+    match A.edges.find? (edgeIs a b) with
+    | none => (.error .query, A)
+    | some e =>
+      match AMap.get nxLabel e.2.2 with
+      | none => (.error .query, A)
+      | some l => (.ok (.linkProps l (AMap.erase nxLabel e.2.2)), A)))
+
+def nidList (ns : List Props) (A : AGraph) : AR :=
+  if ns.any (fun a => !AMap.has nodeId a) then (.error .key, A)
+  else (.ok (.vals (ns.map (AMap.get nodeId))), A)
+
+def listAllNodeIds (A : AGraph) : AR :=
+  if A.nodes.length = 0 then (.error .query, A) else nidList A.nodes A
+
+def nodesByClass (label : String) (A : AGraph) : AR := nidList (A.nodes.filter (attrIs propClass label)) A
+
+def nodesByClassAndType (label ntype : String) (A : AGraph) : AR :=
+  nidList (A.nodes.filter (fun a => attrIs propClass label a && attrIs propType ntype a)) A
+
+def nodeExists (nid label : String) (A : AGraph) : AR :=
+  match A.nodes.filter (fun a => nidIs nid a && attrIs propClass label a) with
+  | [] => (.ok (.bool false), A)
+  | [_] => (.ok (.bool true), A)
+  | _ => (.error .query, A)
+
+def graphExists (A : AGraph) : AR := (.ok (.bool (A.nodes.length > 0)), A)
+
+def checkNodeUnique (label name : String) (A : AGraph) : AR :=
+  (.ok (.bool ((A.nodes.filter (fun a => attrIs propName name a && attrIs propClass label a)).length = 0)), A)
+
+def findMatchingNodes (O : AGraph) (A : AGraph) : AR :=
+  match listAllNodeIds A with
+  | (.error e, _) => (.error e, A)
+  | (.ok (.vals mine), _) =>
+    if O.nodes.any (fun a => !AMap.has nodeId a) then (.error .key, A)
+    else
+      let theirs := O.nodes.map (AMap.get nodeId)
+      (.ok (.vals ((mine.filter (fun x => theirs.contains x)).eraseDups)), A)
+  | (.ok _, _) => (.error .runtime, A)
+
+/-- is the operation part of the reference interface (single graph, plus `find_matching_nodes`) -/
+def covers : Op → Bool
+  | .addGraph .. | .addGraphDirect .. | .clone .. | .mergeNodes .. => false
+  | _ => true
+
+/-- `other` = content of the second graph of `find_matching_nodes` (ignored by every other operation) -/
+def step (op : Op) (other : AGraph) (A : AGraph) : AR :=
+  match op with
+  | .addNode _ nid label props => addNode nid label props A
+  | .deleteNode _ nid => deleteNode nid A
+  | .addLink _ a rel b props => addLink a rel b props A
+  | .updateNodeProperty _ nid k v => updateNodeProperty nid k v A
+  | .unsetNodeProperty _ nid k => unsetNodeProperty nid k A
+  | .updateNodesProperty _ k v => updateNodesProperty k v A
+  | .updateNodeProperties _ nid props => updateNodeProperties nid props A
+  | .updateLinkProperty _ a b kind k v => updateLinkProperty a b kind k v A
+  | .unsetLinkProperty _ a b kind k => unsetLinkProperty a b kind k A
+  | .updateLinkProperties _ a b kind props => updateLinkProperties a b kind props A
+  | .deleteGraph _ => (.ok .unit, empty)
+  | .getNodeProperties _ nid => getNodeProperties nid A
+  | .getLinkProperties _ a b => getLinkProperties a b A
+  | .listAllNodeIds _ => listAllNodeIds A
+  | .nodesByClass _ label => nodesByClass label A
+  | .nodesByClassAndType _ label ntype => nodesByClassAndType label ntype A
+  | .nodeExists _ nid label => nodeExists nid label A
+  | .graphExists _ => graphExists A
+  | .checkNodeUnique _ label name => checkNodeUnique label name A
+  | .findMatchingNodes _ _ => findMatchingNodes other A
+  | _ => (.error .runtime, A)
+
+end AGraph
+
+/-- outputs with the `GraphID` entry removed from returned node dictionaries (the reference model has no
+    graph id inside a graph) -/
+def outAbs : Except Err Out → Except Err Out
+  | .ok (.nodeProps l p) => .ok (.nodeProps l (AMap.erase graphId p))
+  | r => r
+
 end FimVerif.Store
 
 namespace FimVerif.DStore
